@@ -15,10 +15,10 @@ CONSTANTS
   MaxSends = 8
   MaxDeposits = 5
   MaxBlocks = 30
-  Orchs = {"o1", "o2", "o3"}
+  Orchs = {"o1", "o2", "o3", "v2"}
   Exts = {"e1", "e2", "e3"}
   KeyChains = {"ethereum", "minter"}
-  KeyVariants = {"good", "wrongtx", "wrongkey", "stale", "wrongval"}
+  KeyVariants = {"good", "wrongtx", "wrongkey", "stale", "wrongval", "tool", "toolstale"}
   DepAmts = {40}
   DepFees = {0, 2}
   WithKeysAndPrices = FALSE
